@@ -191,7 +191,7 @@ def post_iter_structure(C):
 
 
 def build(reg, cfg):
-    reg.add(Contract('solver::solver', PROP, pre=pre_ctor_ids, post=post_ctor_ids, slice_loop=0, name='solver::solver::<id loop body>'))
+    reg.add(Contract('solver::solver', PROP, signature='global_simulation_parameters', pre=pre_ctor_ids, post=post_ctor_ids, slice_loop=0, name='solver::solver::<id loop body>'))
     reg.add(Contract('cell_divider::run', PROP, pre=pre_division_body, post=post_division_body, slice_loop=0, use=[divide_contract()], safety={'bounds'},
                      name='cell_divider::run::<division loop body>'))
     reg.add(Contract('cell_divider::run', PROP, pre=pre_renumber_body, post=post_renumber_body, slice_loop=1, safety={'bounds'},
